@@ -100,6 +100,50 @@ struct Deep {
     inner: Inner,
 }
 
+// Shapes whose Serialize impl emits the SAME key twice into one map: serde_json keeps the last.
+#[derive(Serialize, PartialEq, Debug, Clone)]
+struct DupInner {
+    kind: String,
+    v: i32,
+}
+
+#[derive(Serialize, PartialEq, Debug, Clone)]
+struct DupFlatten {
+    kind: String,
+    #[serde(flatten)]
+    inner: DupInner,
+    #[serde(flatten)]
+    more: BTreeMap<String, String>,
+}
+
+#[derive(Serialize, PartialEq, Debug, Clone)]
+struct Blob {
+    #[serde(rename = "type")]
+    ty: String,
+    n: u8,
+}
+
+#[derive(Serialize, PartialEq, Debug, Clone)]
+#[serde(tag = "type")]
+enum DupTag {
+    Data(Blob),
+    Other { n: u8 },
+}
+
+/// A hand-written map serializer that repeats a key.
+#[derive(PartialEq, Debug, Clone)]
+struct DupMap(Vec<(String, i32)>);
+impl Serialize for DupMap {
+    fn serialize<S: serde::Serializer>(&self, s: S) -> Result<S::Ok, S::Error> {
+        use serde::ser::SerializeMap;
+        let mut m = s.serialize_map(Some(self.0.len()))?;
+        for (k, v) in &self.0 {
+            m.serialize_entry(k, v)?;
+        }
+        m.end()
+    }
+}
+
 /// Calls serialize_bytes.
 #[derive(PartialEq, Debug, Clone)]
 struct Bytes(Vec<u8>);
@@ -282,7 +326,23 @@ pub fn run(args: &Args) {
     for i in 0..args.n {
         let mut rng = Rng::derive(args.seed, args.shard + 12000, i);
         let r = &mut rng;
-        match i % 35 {
+        match i % 38 {
+            34 => {
+                let v = DupFlatten {
+                    kind: "outer".into(),
+                    inner: DupInner { kind: gstr(r), v: gi(r, -9, 9) },
+                    more: (0..r.below(3)).map(|_| (["kind", "v", "z"][r.below(3)].to_string(), gstr(r))).collect(),
+                };
+                check_ser(&mut rep, &v, "DupFlatten(duplicate keys)");
+            }
+            35 => {
+                let v = if r.chance(2, 3) { DupTag::Data(Blob { ty: gstr(r), n: gi(r, 0, 9) }) } else { DupTag::Other { n: 1 } };
+                check_ser(&mut rep, &v, "DupTag(duplicate keys)");
+            }
+            36 => {
+                let v = DupMap((0..r.below(5) + 1).map(|_| (["a", "b", "a"][r.below(3)].to_string(), gi::<i32>(r, -9, 9))).collect());
+                check_ser(&mut rep, &v, "DupMap(duplicate keys)");
+            }
             0 => both(&mut rep, &r.chance(1, 2), "bool", &ident),
             1 => both(&mut rep, &gi::<i8>(r, i8::MIN as i128, i8::MAX as i128), "i8", &ident),
             2 => both(&mut rep, &gi::<i16>(r, i16::MIN as i128, i16::MAX as i128), "i16", &ident),
@@ -370,6 +430,7 @@ pub fn run(args: &Args) {
                 }
             }
             _ => {
+                let _ = 37;
                 let b = Bytes((0..r.below(5)).map(|_| gi::<u8>(r, 0, 255)).collect());
                 check_ser(&mut rep, &b, "Bytes(serialize_bytes)");
             }
